@@ -17,7 +17,7 @@ var soupTokens = []string{
 	";; $MODULE m", ";; $MODULE ", ";; $x 1", ";; $x", ";; $", ";;", "; c",
 	"; comment\n", ";; $x 1\n", ";; $MODULE m\n", ";", ";; $a $b\n", ";; $x\n", ";; x 1\n",
 	"\n", "\r\n", "\t", " ", "  ", "\x00", "\xff", "\xc3", "\xef\xbb\xbf", "ʞ", "ʞkw", "é", "世", "λ",
-	"(+ 1 2)", "[1 2]", "{:a 1}", "#{:a}", "(def a 1)", "'x", "^{:m 1} [1]", "@a", "`(~a ~@b)", "«atom 1»", "«»", "«1»", "«foo»", "«nil»", "«nil 1 2»", "«$T 1»", "«atom «nil»»", "«\"s\" 1»", "«[a]»", "«:k»", ";; $A «nil»\n", "«atom $x»", "«point $x $x»", "{:a}", "{1 2}", "#{1}",
+	"(+ 1 2)", "[1 2]", "{:a 1}", "#{:a}", "(def a 1)", "'x", "^{:m 1} [1]", "@a", "`(~a ~@b)", "«atom 1»", "«»", "«1»", "«foo»", "«nil»", "«nil 1 2»", "«$T 1»", "«atom «nil»»", "«\"s\" 1»", "«[a]»", "«:k»", ";; $A «nil»\n", "«atom $x»", "«point $x $x»", "«point 1 2»", "«point»", "«twice 1»", "«limit»", "«nothing»", "«vec 1»", "«str»", "«kw 1»", "«map :a»", "«point 1 2 3»", "'«point 1 2»", "[«limit» «twice «point 1 2»»]", "{:a}", "{1 2}", "#{1}",
 }
 
 var macroPrefixes = []string{"'", "`", "~", "~@", "@", "^{:a 1}", "^m", "^:k", "^#{\"x\"}", "^$x", "^[1]", "^\"s\"", "^nil", "^()", "^{}", "^1", "^(f)", "^'q", "^«nil»", "^", "^^"}
